@@ -111,4 +111,12 @@ def cleanToks : List Token := [
   ⟨.eof, [], ⟨3, 1, 51⟩, ⟨3, 1, 51⟩⟩]
 -- implementation's array: [0, 0, 10, 3, 0, 0, 11, 1, 8, 0, 0, 2, 5, 2, 0, 0, 8, 2, 5, 0, 0, 2, 1, 12, 0, 0, 3, 2, 5, 0, 0, 3, 1, 12, 0, 1, 4, 3, 0, 0, 0, 5, 1, 1, 0, 0, 1, 1, 4, 0, 0, 2, 1, 11, 0, 0, 2, 1, 4, 0, 0, 2, 3, 1, 0]
 
+/-- `"; p q ya:1, a:2\n"` and the lexer's tokens for it (replays/C17/tag-search-position.jsonl). -/
+def tagsText : Bytes := [59, 32, 112, 32, 113, 32, 121, 97, 58, 49, 44, 32, 97, 58, 50, 10]
+def tagsToks : List Token := [
+  ⟨.comment, [32, 112, 32, 113, 32, 121, 97, 58, 49, 44, 32, 97, 58, 50], ⟨1, 1, 0⟩, ⟨1, 16, 15⟩⟩,
+  ⟨.newline, [10], ⟨1, 16, 15⟩, ⟨2, 1, 16⟩⟩,
+  ⟨.eof, [], ⟨2, 1, 16⟩, ⟨2, 1, 16⟩⟩]
+-- implementation's array: [0, 7, 2, 5, 0, 0, 7, 1, 12, 0]
+
 end HL.Lemmas.SemTok.W
